@@ -187,6 +187,13 @@ def cases(tier, seed):
             for mode in MODES[problem]:
                 out.append({"problem": problem, "prog": prog, "mesh": "base", "ground": GROUNDS[problem][0], "orphan": False, "resol": "elim", "mode": mode,
                             "krylov": "cg", "homog": True})
+    # the same programs with every entered value (prescribed values AND loads) x 1e-9 - nanometres written in metres: the problems are
+    # linear, so constraints, residual and agreement are demanded relative to the scale of the solution as everywhere else
+    for problem in ("elastic", "thermal", "beam"):
+        for prog in [p for p in progs if p.count(">") == 1 and any(a.startswith("d") for a in p.split(">")) and any(a in ("nC", "lD") for a in p.split(">"))]:
+            for mode in MODES[problem]:
+                out.append({"problem": problem, "prog": prog, "mesh": "base", "ground": GROUNDS[problem][0], "orphan": False, "resol": "elim", "mode": mode,
+                            "krylov": "cg", "tiny": True})
     out.append({"kind": "solver_set"})
     # every installed Krylov backend on a harder (slender) problem
     for solver in installed_solvers():
@@ -389,6 +396,18 @@ def make_spec(case):
             return (c[0], c[1], [zero(v) for v in c[2]], c[3]) if c[0] == "dir" else c
 
         s.atoms = {k: ([z(c) for c in a] if isinstance(a, list) else z(a)) for k, a in s.atoms.items()}
+    if case.get("tiny"):
+        f = 1e-9
+
+        def sc(v):
+            if callable(v):
+                return lambda x, y, z, v=v: f * v(x, y, z)
+            return v * f
+
+        def t(c):
+            return (c[0], c[1], [sc(v) for v in c[2]], c[3])
+
+        s.atoms = {k: ([t(c) for c in a] if isinstance(a, list) else t(a)) for k, a in s.atoms.items()}
     return s
 
 
